@@ -68,6 +68,10 @@ func NewStrMaterial(r *vh.Rand) *StrMaterial {
 	}
 	for _, nm := range g.Names {
 		g.Pats = append(g.Pats, nm)
+		// a wildcard exactly one label above an exact name: exact must win, in any letter case
+		if _, parent, ok := strings.Cut(nm, "."); ok && strings.Contains(parent, ".") && r.Chance(1, 2) {
+			g.Pats = append(g.Pats, "*."+parent)
+		}
 		if r.Chance(2, 3) {
 			g.Pats = append(g.Pats, "*."+nm)
 		}
@@ -171,6 +175,20 @@ func (g *Gen) path(peer int) []int {
 		return p
 	case 2:
 		return []int{0}
+	case 3, 4: // the head of the path is NOT the delivering peer (legacy encrypted
+		// path forwarded unchanged, or a neighbour that relays without prepending itself)
+		other := 1 + g.R.Intn(7)
+		if other == peer {
+			other = 1 + peer%7
+		}
+		p := []int{other}
+		if g.R.Chance(1, 2) {
+			p = append(p, peer)
+		}
+		if g.R.Chance(1, 2) {
+			p = append(p, 1+g.R.Intn(7))
+		}
+		return p
 	default:
 		p := []int{peer}
 		for k := g.R.Intn(3); k > 0; k-- {
@@ -216,6 +234,38 @@ func (g *Gen) tick() Op {
 	return Op{Code: OpTick, Ms: int64(g.R.Pick(1, 1, 499, 500, 1000, 1000, 5000, 60000))}
 }
 
+// victim picks a stored route that is not the last of a bucket of at least
+// three (most often the head): removing it is where an order-destroying
+// removal shows. Buckets are taken in sorted key order, so the choice depends
+// on the seed only.
+func (g *Gen) victim(d *Dump, table string) (Entry, bool) {
+	var bs [][]Entry
+	for _, b := range d.Buckets[table] {
+		if len(b) >= 3 {
+			bs = append(bs, b)
+		}
+	}
+	if len(bs) == 0 {
+		return Entry{}, false
+	}
+	sort.Slice(bs, func(i, j int) bool { return bs[i][0].Key < bs[j][0].Key })
+	b := bs[g.R.Intn(len(bs))]
+	if g.R.Chance(2, 3) {
+		return b[0], true
+	}
+	return b[g.R.Intn(len(b)-1)], true
+}
+
+// poolNet finds the pool network that is stored as n.
+func (g *Gen) poolNet(n *net.IPNet) *Net {
+	for _, x := range g.Nets {
+		if _, c, err := net.ParseCIDR(x.IPNet().String()); err == nil && n != nil && c.String() == n.String() {
+			return x
+		}
+	}
+	return nil
+}
+
 // Next returns the next mutating (or tick) operation.
 func (g *Gen) Next(d *Dump, nowMs int64) Op {
 	r := g.R
@@ -240,6 +290,11 @@ func (g *Gen) Next(d *Dump, nowMs int64) Op {
 			}
 			return op
 		case x < 56:
+			if e, ok := g.victim(d, "cidr"); ok && r.Chance(1, 2) {
+				if n := g.poolNet(e.Net); n != nil {
+					return Op{Code: OpWd, Origin: int(e.Origin), Ents: []Ent{{Net: n}}}
+				}
+			}
 			op := Op{Code: OpWd, Origin: g.origin()}
 			for i := r.Pick(1, 1, 2); i > 0; i-- {
 				op.Ents = append(op.Ents, Ent{Net: g.net()})
@@ -261,6 +316,11 @@ func (g *Gen) Next(d *Dump, nowMs int64) Op {
 			peer := r.Pick(0, 1, 2, 3)
 			return Op{Code: OpTAdd, Peer: peer, Origin: r.Intn(5), Seq: g.seq(), Metric: g.metric(), Path: g.path(peer), Net: g.net()}
 		default:
+			if e, ok := g.victim(d, "cidr"); ok && r.Chance(1, 2) {
+				if n := g.poolNet(e.Net); n != nil {
+					return Op{Code: OpTRm, Origin: int(e.Origin), Net: n}
+				}
+			}
 			return Op{Code: OpTRm, Origin: r.Intn(5), Net: g.net()}
 		}
 	case "domain":
@@ -282,6 +342,9 @@ func (g *Gen) Next(d *Dump, nowMs int64) Op {
 		case x < 88:
 			return Op{Code: OpDRmLocal, Name: pat()}
 		default:
+			if e, ok := g.victim(d, []string{"dexact", "dwild"}[r.Intn(2)]); ok && r.Chance(1, 2) {
+				return Op{Code: OpDTRm, Origin: int(e.Origin), Name: e.Pattern}
+			}
 			return Op{Code: OpDTRm, Origin: r.Intn(5), Name: pat()}
 		}
 	case "fwd":
@@ -304,6 +367,9 @@ func (g *Gen) Next(d *Dump, nowMs int64) Op {
 		case x < 88:
 			return Op{Code: OpFRmLocal, Name: key()}
 		default:
+			if e, ok := g.victim(d, "fwd"); ok && r.Chance(1, 2) {
+				return Op{Code: OpFTRm, Origin: int(e.Origin), Name: e.Key}
+			}
 			return Op{Code: OpFTRm, Origin: r.Intn(5), Name: key()}
 		}
 	default: // agent
@@ -324,6 +390,9 @@ func (g *Gen) Next(d *Dump, nowMs int64) Op {
 		case x < 84:
 			return Op{Code: OpAClean, Ms: g.ageMs(d, []string{"agent"}, nowMs)}
 		default:
+			if e, ok := g.victim(d, "agent"); ok && r.Chance(1, 2) {
+				return Op{Code: OpATRm, Agent: int(e.KeyNums[0]), Origin: int(e.Origin)}
+			}
 			return Op{Code: OpATRm, Agent: 1 + r.Intn(5), Origin: r.Intn(5)}
 		}
 	}
@@ -348,7 +417,7 @@ func (g *Gen) Lookups(k int) []Op {
 				out = append(out, Op{Code: OpLookupB, Idx: r.Intn(len(g.Nets)), K: r.Intn(12)})
 			}
 		case "domain":
-			out = append(out, Op{Code: OpDLookupD, Idx: r.Intn(len(g.Strs)), K: r.Intn(8)})
+			out = append(out, Op{Code: OpDLookupD, Idx: r.Intn(len(g.Strs)), K: r.Intn(9)})
 		case "fwd":
 			out = append(out, Op{Code: OpFLookup, Name: g.Keys[r.Intn(len(g.Keys))]})
 		default:
